@@ -8,7 +8,8 @@ import gen as G
 
 PROP = 'C14'
 THEOREMS = ['pos_pow_iff_walk_thm', 'is_ergodic_unfold_thm', 'ergodic_sound_thm', 'ergodic_complete_thm', 'is_ergodic_iff_graph_thm',
-            'bpow_wexp_iff_graph_thm', 'ergodic_complete_loop_partial',
+            'bpow_wexp_iff_graph_thm', 'reach_spec_thm', 'sym_power_is_class_thm', 'sym_power_acyclic_thm',
+            'ergodic_mask_classes_thm', 'mask_largest_closed_thm', 'ergodic_complete_loop_partial',
             'wielandt_exponent_covers_loop_bound', 'ergodic_complete_le4', 'walks_monotone_thm', 'bpow_walk_thm', 'atol_free_eq_thm',
             'ergodic_implies_fuzzy_thm', 'nonstochastic_neither_thm']
 CONFIGS = [dict(jit=True), dict(jit=False)]
@@ -22,8 +23,8 @@ RULE = ('matrices from random sparse count matrices with 2..8 states (irreducibl
         'threshold-free cases. Non-trivial: >= 3 states and reducible / periodic / extremal support, '
         'or ergodic with a zero entry.')
 TRUSTED = ['np.linalg.matrix_power in floating point (decisions compared only away from the thresholds)',
-           'the mask clause is compared with an independent graph algorithm (mask_spec) on every case; its '
-           'proof is in Proofs/MaskFacts.v when listed among the theorems, otherwise it is only compared']
+           'the boolean closedness test class_closed used in mask_largest_closed_thm is an executable '
+           'definition (edges leaving the class), not related to a Prop-level notion by a theorem']
 ASSUMPTIONS = ['entries are exact rationals from count matrices; floats are their roundings']
 BATCH = 400
 
